@@ -24,7 +24,7 @@ UNIT_TABLE = {'meter': 1.0, 'meters': 1.0, 'm': 1.0,
 
 
 def plan(tier, seed):
-    n = 16 if tier == 'quick' else 160
+    n = 16 if tier == 'quick' else 1600
     out = []
     for i in range(n):
         out += [('plane', i), ('sphere', i), ('kernel', i), ('units', i), ('cellsize', i)]
